@@ -169,6 +169,20 @@ def generate(tier, rng):
     for n in range(0, 5):
       for calls in sorted({0, 1, n, n + 1, n + 2, 2 * n + 2, 3 * n + 4, 4 * n + 5}):
         yield {'kind': 'repeat', 'base': base, 'n': n, 'calls': calls}
+  # -- a pass consumed in pieces: iter() is called again in the middle of a pass (islice then list,
+  #    a for loop that breaks then another for, next then list, bare iter()), in the first and in
+  #    later passes, for container and one-shot bases
+  for base in range(9):
+    for n in range(1, 5):
+      for prior in range(0, 3):
+        pats = []
+        for k in sorted({1, n // 2, n - 1, n} - {0}):
+          pats += [[['S', k], ['L']], [['F', k], ['L']], [['S', k], ['F', 1], ['L']]]
+        pats += [[['N'], ['L']], [['N'], ['I'], ['N'], ['I'], ['L']], [['I'], ['S', n + 2], ['L']]]
+        if tier == 'quick':
+          pats = [pt for j, pt in enumerate(pats) if (j + base + n + prior) % 3 == 0]
+        for pt in pats:
+          yield {'kind': 'repeat_ops', 'base': base, 'n': n, 'ops': [['L']] * prior + pt + [['L']]}
   # -- property-level: shuffle_repeat_batch_federated_data, shuffled_clients
   # seed 0 is a seed (not "unseeded"); both passes of the reproducibility clause are separate
   # creations with numpy's global RNG perturbed in between; all three FederatedData implementations
@@ -276,6 +290,13 @@ def _perturb(k):
   state instead of its own seeded RandomState is not reproducible between two creations."""
   np.random.seed(70001 + 104729 * k)
   np.random.rand(2 + k)
+
+
+def _repeat_base(kind, n):
+  return [lambda: list(range(n)), lambda: tuple(range(n)), lambda: {k: -k for k in range(n)},
+          lambda: ''.join(chr(48 + k) for k in range(n)), lambda: bytes(range(n)),
+          lambda: (k for k in range(n)), lambda: iter(list(range(n))), lambda: range(n),
+          lambda: map(lambda k: k, range(n))][kind]()
 
 
 def _iterable(dsl, how):
@@ -392,6 +413,44 @@ def run(case):
         _datasets(case), batch_size=case['bs'], buffer_size=case['B'], rng=np.random.RandomState(case['seed'])), conv)
     return {'batches': batches, 'err': err, 'codes': rng.codes, 'draws': rng.draws, 'contract': rng.contract,
             'same': batches == b2, 'feat_ok': feat_ok[0]}
+  if kind == 'repeat_ops':
+    n = case['n']
+    it = fdm.RepeatableIterator(_repeat_base(case['base'], n))
+    conv = lambda v: ord(v) - 48 if isinstance(v, str) else int(v)
+    parts, prim, trace, iter_ok = [], [], [], True
+    for op in case['ops']:
+      if op[0] == 'N':        # next(it)
+        prim.append(True)
+        try:
+          got = [conv(next(it))]
+          trace.append(got[0])
+        except StopIteration:
+          got = []
+          trace.append(None)
+      elif op[0] == 'I':      # iter(it)
+        prim.append(False)
+        iter_ok &= iter(it) is it
+        got = []
+      elif op[0] == 'S':      # list(itertools.islice(it, k)): iter(it), then k next() (fewer + StopIteration at the end)
+        got = [conv(v) for v in itertools.islice(it, op[1])]
+        prim += [False] + [True] * (len(got) + (1 if len(got) < op[1] else 0))
+        trace += got + ([None] if len(got) < op[1] else [])
+      elif op[0] == 'F':      # for v in it: ...; break after k items
+        got = []
+        broke = False
+        for v in it:
+          got.append(conv(v))
+          if len(got) == op[1]:
+            broke = True
+            break
+        prim += [False] + [True] * (len(got) + (0 if broke else 1))
+        trace += got + ([] if broke else [None])
+      else:                   # list(it): iter(it), then next() until StopIteration
+        got = [conv(v) for v in it]
+        prim += [False] + [True] * (len(got) + 1)
+        trace += got + [None]
+      parts.append(got)
+    return {'parts': parts, 'prim': prim, 'trace': trace, 'iter_is_self': iter_ok}
   if kind == 'repeat':
     n = case['n']
     base = [lambda: list(range(n)), lambda: tuple(range(n)), lambda: {k: -k for k in range(n)},
@@ -576,6 +635,16 @@ def oracle(case, obs):
     if not obs['feat_ok']:
       out.append(('shufbatch-features', 'a feature does not follow its row or a mask appeared'))
     return out
+  if kind == 'repeat_ops':
+    n = case['n']
+    cyc = list(range(n)) + [None]
+    want = [cyc[j % (n + 1)] for j in range(len(obs['trace']))]
+    if obs['trace'] != want:
+      out.append(('repeat-split-pass', f'a pass consumed in pieces {obs["parts"]} (ops {case["ops"]}) is not the first pass '
+                  f'{list(range(n))} replayed: an iter() call in the middle of a pass changed what next() returns'))
+    if not obs['iter_is_self']:
+      out.append(('repeat-iter', 'iter(it) is not it'))
+    return out
   if kind == 'repeat':
     n = case['n']
     cyc = list(range(n)) + [None]
@@ -685,6 +754,9 @@ def encode(case, obs):
   if kind == 'shufclients':
     orc = '[' + '; '.join(f'({fw.natlist(c)}, {_zl(d)})' for c, d in obs['oracles']) + ']'
     return (f'(CShufClients {case["B"]}%Z {orc} {case["nc"]}%nat, OShufClients {_zl([i for i, _ in obs["stream"]])})')
+  if kind == 'repeat_ops':
+    tr = '[' + '; '.join('None' if v is None else f'Some {fw.zlit(v)}%Z' for v in obs['trace']) + ']'
+    return f'(CRepeatOps {fw.cbool(case["base"] < 5)} {case["n"]}%nat {fw.blist(obs["prim"])}, ORepeat {tr})'
   if kind == 'repeat':
     tr = '[' + '; '.join('None' if v is None else f'Some {fw.zlit(v)}%Z' for v in obs['trace']) + ']'
     return f'(CRepeat {fw.cbool(case["base"] < 5)} {case["n"]}%nat {case["calls"]}%nat, ORepeat {tr})'
@@ -701,6 +773,8 @@ def nontrivial(case, obs):
     return case['n'] > 0
   if kind == 'repeat':
     return case['calls'] > 0
+  if kind == 'repeat_ops':
+    return bool(obs['trace'])
   return True
 
 
@@ -728,6 +802,9 @@ def describe(case, obs):
   elif kind in ('srbfd', 'shufclients'):
     d['impl'] = case.get('impl', 'mem')
     d['stream_seed'] = {0: '0', 1: '1', 2 ** 32 - 1: '2^32-1'}.get(case['seed'], 'other')
+  elif kind == 'repeat_ops':
+    d['base'] = ['list', 'tuple', 'dict', 'str', 'bytes', 'generator', 'list_iterator', 'range', 'map'][case['base']]
+    d['split_in_pass'] = min(sum(1 for o in case['ops'] if o == ['L']) - 1, 3)
   elif kind == 'repeat':
     d['base'] = ['list', 'tuple', 'dict', 'str', 'bytes', 'generator', 'list_iterator', 'range', 'map'][case['base']]
     d['passes'] = min(case['calls'] // (case['n'] + 1), 4)
@@ -744,6 +821,9 @@ def shrink(case):
       for s in sorted({0, ds[j][2] // 2, ds[j][2] - 1}):
         if 0 <= s < ds[j][2]:
           yield {**case, 'ds': ds[:j] + [[ds[j][0], ds[j][1], s]] + ds[j + 1:]}
+  if kind == 'repeat_ops':
+    for j in range(len(case['ops'])):
+      yield {**case, 'ops': case['ops'][:j] + case['ops'][j + 1:]}
   if 'sizes' in case and len(case['sizes']) > 1:
     for j in range(len(case['sizes'])):
       yield {**case, 'sizes': case['sizes'][:j] + case['sizes'][j + 1:]}
